@@ -252,9 +252,15 @@ def expanding_rules(prog, rep, E):
     add = prog.method(ctx, "add_alt")
     tgt = set()
     for p in paths(prog, ctx, add):
-        for e in p.events:
-            if e.kind == "call" and e.name == "add_alt" and e.recv is not None:
-                tgt.add(strip_epochs(e.recv))
+        for i, e in enumerate(p.events):
+            if e.kind == "call" and e.name == "add_alt" and e.recv is not None and not e.d.get("inlined"):
+                r = strip_epochs(e.recv)
+                # the object appended last before this call IS _blooms[-1]
+                app = [x.args[0] for x in p.events[:i] if x.kind == "call" and x.target is None and x.name == "append" and x.d.get("recv") is not None
+                       and strip_epochs(x.recv) == blooms and x.args]
+                if app and strip_epochs(app[-1]) == r:
+                    r = ("sub", blooms, C(-1), 0)
+                tgt.add(r)
     if tgt == {("sub", blooms, C(-1), 0)}:
         rep.ok("C01.expanding-insert-last", f"{ctx}.add_alt inserts into _blooms[-1]")
     else:
@@ -271,6 +277,9 @@ def expanding_rules(prog, rep, E):
                         got = dict(e.kwargs)
                         for i, a_ in enumerate(e.args):
                             got[["est_elements", "false_positive_rate", "filepath", "hex_string", "hash_function"][i]] = a_
+                        # inside the constructor a field that was just assigned reads as the assigned value: name it by the field again
+                        back = {strip_epochs(fv): ("f", SELF, fn, 0) for (b_, fn), fv in p.fields.items() if b_ == SELF and fv[0] not in ("c",)}
+                        got = {k: back.get(strip_epochs(v), v) for k, v in got.items()}
                         sites[(f.qualname, e.where())] = tuple(sorted((k, canon(v)) for k, v in got.items()))
         vals = set(sites.values())
         if len(sites) >= 1 and len(vals) == 1:
